@@ -4,6 +4,7 @@ package sim
 
 import (
 	"fmt"
+	"sort"
 	"net"
 	"sync"
 	"time"
@@ -56,6 +57,8 @@ type Record struct {
 	Data   []byte        `json:"-"`
 	Pkts   any           `json:"pkts,omitempty"` // decoded packets (observer)
 	Forged bool          `json:"forged,omitempty"`
+	Dlv    []time.Duration `json:"dlv_ns,omitempty"` // virtual times at which (copies of) the datagram were handed to the receiver
+	Mutated bool         `json:"mutated,omitempty"` // content was altered (flip / truncate)
 }
 
 // Classifier inspects a datagram before the fault decision and returns its classes
@@ -249,12 +252,14 @@ func (r *Router) SendPacket(p simnet.Packet) error {
 				d2[idx] ^= m
 				data = d2
 				rec.Fate = fmt.Sprintf("flipped:%d^%02x", idx, m)
+				rec.Mutated = true
 			}
 		case "trunc":
 			if len(data) > 1 {
 				n := 1 + ((f.Arg%(len(data)-1))+(len(data)-1))%(len(data)-1)
 				data = append([]byte(nil), data[:n]...)
 				rec.Fate = fmt.Sprintf("truncated:%d", n)
+				rec.Mutated = true
 			}
 		}
 	}
@@ -286,6 +291,7 @@ func (r *Router) deliver(dir Dir, rec *Record, recv simnet.PacketReceiver, pkt s
 		return
 	}
 	r.BytesDlv[dir] += int64(len(pkt.Data))
+	rec.Dlv = append(rec.Dlv, time.Since(r.start))
 	cb := r.OnDeliver
 	r.mu.Unlock()
 	if cb != nil {
@@ -323,6 +329,7 @@ func (r *Router) Trace(max int) []*Record {
 		}
 		c := *x
 		c.Data = nil
+		c.Dlv = append([]time.Duration(nil), x.Dlv...)
 		out = append(out, &c)
 	}
 	return out
@@ -333,4 +340,77 @@ func (r *Router) AppliedFaults() []string {
 	r.mu.Lock()
 	defer r.mu.Unlock()
 	return append([]string(nil), r.Applied...)
+}
+
+// Silence analyses the log for the period (from, to]: how many intact datagrams were handed to the endpoint
+// receiving direction dirToE, and how many datagrams (either direction) the network lost or corrupted.
+func (r *Router) Silence(dirToE string, from, to time.Duration) (intactToE, lostAny, sentAny int) {
+	r.mu.Lock()
+	defer r.mu.Unlock()
+	for _, x := range r.Log {
+		if x.Forged {
+			continue
+		}
+		if x.T > from && x.T <= to {
+			sentAny++
+			if x.Mutated || len(x.Dlv) == 0 {
+				lostAny++
+			}
+		}
+		if x.Dir == dirToE && !x.Mutated {
+			for _, d := range x.Dlv {
+				if d > from && d <= to {
+					intactToE++
+				}
+			}
+		}
+	}
+	return
+}
+
+// DeadStretch returns the longest period, up to 'until', between two consecutive intact deliveries in one
+// direction during which the network lost or corrupted at least one datagram of that direction (maximum over
+// both directions). It measures for how long the path was effectively dead.
+func (r *Router) DeadStretch(until time.Duration) time.Duration {
+	r.mu.Lock()
+	defer r.mu.Unlock()
+	var longest time.Duration
+	for _, dir := range []string{"c2s", "s2c"} {
+		type ev struct {
+			t    time.Duration
+			lost bool
+		}
+		var evs []ev
+		for _, x := range r.Log {
+			if x.Forged || x.Dir != dir {
+				continue
+			}
+			if x.Mutated || len(x.Dlv) == 0 {
+				evs = append(evs, ev{x.T, true})
+			} else {
+				for _, d := range x.Dlv {
+					evs = append(evs, ev{d, false})
+				}
+			}
+		}
+		sort.Slice(evs, func(i, j int) bool { return evs[i].t < evs[j].t })
+		last, hasLoss := time.Duration(0), false
+		for _, e := range evs {
+			if e.t > until {
+				break
+			}
+			if e.lost {
+				hasLoss = true
+				continue
+			}
+			if hasLoss && e.t-last > longest {
+				longest = e.t - last
+			}
+			last, hasLoss = e.t, false
+		}
+		if hasLoss && until-last > longest {
+			longest = until - last
+		}
+	}
+	return longest
 }
